@@ -51,7 +51,14 @@ mod harnesses {
         assert!(is_rfc3986_unreserved(c) == unreserved(c));
     }
     fn is_ws(b: u8) -> bool { b == 0x20 || b == 0x09 || b == 0x0a || b == 0x0c || b == 0x0d }
-    /// `trim_ascii` (not extracted; contract assumed in contracts/params.rs) on all inputs of length <= 4. BOUNDED.
+    /// prelude `u8::is_ascii_whitespace` contract (contracts/trim.rs), all 256 values. complete.
+    #[kani::proof]
+    fn std_is_ascii_whitespace() {
+        let c: u8 = kani::any();
+        assert!(c.is_ascii_whitespace() == is_ws(c));
+    }
+    /// compiled `trim_ascii` (fidelity check of the code Verus verified in unit trim after desugaring its slice patterns) on all inputs of
+    /// length <= 4. BOUNDED.
     #[kani::proof]
     #[kani::unwind(6)]
     fn trim_ascii_bounded() {
